@@ -1,10 +1,12 @@
 """C51 -- MTest and tfel-check verdicts are sound.
-Engine H: executable Gallina models of the five tfel-check comparisons and the two MTest tests on Coq primitive
-floats (C51Model.v), theorems in Coq (soundness, self-comparison, Area), and a bit-exact tie: the REAL
-*Comparison.cxx / AnalyticalTest.cxx / ReferenceFileComparisonTest.cxx are compiled from /repo into driver.cxx and
-run on the same inputs (negatives, zeros, NaN, +-inf, ties at the tolerance) as the model under vm_compute.
-The form of the tolerance test (`err > prec` vs `!(err <= prec)`, Mixed `prec*vb` vs `prec*|vb|`) is a parameter of
-the model; which form /repo implements is decided by the runs, and selects the theorem file."""
+Engine H: executable Gallina models of the five tfel-check comparisons (Area with interpolation None and Linear) and the
+two MTest tests on Coq primitive floats (C51Model.v), theorems in Coq (soundness in binary64 and over the reals with an
+explicit rounding slack, self-comparison, Area), and a bit-exact tie: the REAL *Comparison.cxx / Linearization.cxx /
+AnalyticalTest.cxx / ReferenceFileComparisonTest.cxx are compiled from /repo into driver.cxx and run on the same inputs
+(negatives, zeros, NaN, +-inf, ties at the tolerance) as the model under vm_compute.  The form of the tolerance test
+(`err > prec` vs `!(err <= prec)`, Mixed `prec*vb` vs `prec*|vb|`, Area normalised by max(ref) vs max|ref|) is a parameter
+of the model; which form /repo implements is decided by the runs, and selects the theorem files.  The interpolated Area
+variants (Linear, Spline = the real tfel::math::CubicSpline) are also judged by an exact rational oracle."""
 import math, os, re
 from fractions import Fraction
 from vlib import guarded_main
@@ -354,15 +356,15 @@ def main(c):
               "g++ binary64 arithmetic with -ffp-contract=off, glibc strtod/printf; Python float arithmetic for the independent "
               "statement of the criteria")
     rng = c.rng
-    N = c.pick(260, 2500)
+    N = c.pick(200, 2500)
     cmp_cases = list(CORPUS_CMP)
     for k in ("absolute", "relative", "relabs", "mixed"):
         cmp_cases += [gen_cmp(rng, k) for _ in range(N)]
-    area_cases = list(CORPUS_AREA) + [gen_area(rng) for _ in range(c.pick(260, 2000))]
+    area_cases = list(CORPUS_AREA) + [gen_area(rng) for _ in range(c.pick(220, 2000))]
     # interpolated variants with an exact oracle: the linear ones are also tied to the model, the spline ones are not modelled
     n_tied_only = len(area_cases)
-    lin_cases = [x for x in CORPUS_AREA_INTERP if x[0] == "linear"] + [gen_area_interp(rng, "linear") for _ in range(c.pick(80, 600))]
-    spline_cases = [x for x in CORPUS_AREA_INTERP if x[0] == "spline"] + [gen_area_interp(rng, "spline") for _ in range(c.pick(80, 600))]
+    lin_cases = [x for x in CORPUS_AREA_INTERP if x[0] == "linear"] + [gen_area_interp(rng, "linear") for _ in range(c.pick(60, 600))]
+    spline_cases = [x for x in CORPUS_AREA_INTERP if x[0] == "spline"] + [gen_area_interp(rng, "spline") for _ in range(c.pick(60, 600))]
     area_cases += lin_cases
     ana_cases = list(CORPUS_ANA) + [gen_ana(rng) for _ in range(c.pick(200, 1500))]
     ref_cases = list(CORPUS_REF) + [gen_ref(rng) for _ in range(c.pick(200, 1500))]
@@ -439,6 +441,7 @@ def main(c):
     m_ref = model[j0:j0 + len(ref_cases)]
 
     findings = set()
+    pinned_forms = set()      # comparisons observed to implement the form of the pinned tree (`err > prec`, prec*vb)
 
     def parse_R(line):
         t = line.split()
@@ -487,6 +490,8 @@ def main(c):
                       "how": "echo 'CMP ...' | driver (props/C51/driver.cxx)"}, True)
         tol_form = (best[0][0] if kind == "mixed" else best[0]) if best else None
         mix_form = best[0][1] if (best and kind == "mixed") else None
+        if tol_form == "TolGt" or mix_form == "MixSigned":
+            pinned_forms.add(kind)
         for idx, what in prop_bad:
             k, p, p2, rows = cmp_cases[idx]
             nanrow = any(any(math.isnan(e) for e in errs(kind, p, p2, a, b)) for a, b in rows)
@@ -633,6 +638,8 @@ def main(c):
                     prop_bad.append((idx, bad))
         best = [vv for vv in VARIANTS2 if not mism[vv]]
         c.notes.append("%s: code agrees bit-exactly with model variant(s) %s" % (name, best))
+        if name == "reffile" and best == ["TolGt"]:
+            pinned_forms.add(name)
         if not best:
             vv = min(VARIANTS2, key=lambda x: len(mism[x]))
             idx, mval = mism[vv][0]
@@ -657,15 +664,25 @@ def main(c):
 
     # ---------------------------------------------------------------- theorems
     core_findings = findings - area_findings
-    pf = "Properties_C51_pinned.v" if core_findings else "Properties_C51.v"
-    af = "Properties_C51_area_pinned.v" if area_findings else "Properties_C51_area.v"
+    # the theorem files follow the form the code is OBSERVED to implement (a regression of a fixed defect is a VIOLATION above,
+    # and the refuted theorems are then the ones that describe the code)
+    core_pinned = bool(core_findings or pinned_forms)
+    area_pinned = bool(area_findings or (a_best and a_best[0] == ("TolGt", "NormMax")))
+    pf = "Properties_C51_pinned.v" if core_pinned else "Properties_C51.v"
+    af = "Properties_C51_area_pinned.v" if area_pinned else "Properties_C51_area.v"
     c.notes.append("theorem files: %s (%s), %s (%s)" % (
-        pf, "known findings observed: %s" % sorted(core_findings) if core_findings else "code implements the NaN-safe forms",
-        af, "known findings observed: %s" % sorted(area_findings) if area_findings else "code implements `!(area <= prec)` and the normalisation by the largest magnitude"))
-    if a_best and ((area_findings and a_best[0] != ("TolGt", "NormMax")) or (not area_findings and a_best[0] != ("TolNotLe", "NormAbsMax"))):
+        pf, "pinned forms observed: %s %s" % (sorted(pinned_forms), sorted(core_findings)) if core_pinned else "code implements the NaN-safe forms",
+        af, "pinned form observed: %s" % sorted(area_findings) if area_pinned else "code implements `!(area <= prec)` and the normalisation by the largest magnitude"))
+    if a_best and a_best[0] not in (("TolGt", "NormMax"), ("TolNotLe", "NormAbsMax")):
         c.notes.append("area: the code matches the intermediate variant %s: the refuted/positive Area theorems are stated for (TolGt, NormMax) / "
                        "(TolNotLe, NormAbsMax) only" % (a_best[0],))
-    r = c.coq(["C51Model.v", "C51Spec.v", "C51Proofs.v", "C51AreaProofs.v", pf, af], timeout=900)
+    files = ["C51Model.v", "C51Spec.v", "C51Proofs.v", "C51AreaProofs.v", "C51RealProofs.v", pf, af]
+    if not core_pinned:
+        # statements over the reals: they are about the NaN-safe forms, i.e. about the code only when no F15 finding is observed
+        files.append("Properties_C51_reals.v")
+    else:
+        c.notes.append("Properties_C51_reals.v not claimed: the code does not implement the NaN-safe forms")
+    r = c.coq(files, timeout=900)
     if not r.ok:
         c.coq_failures(r)
 
